@@ -428,7 +428,43 @@ def c08(case):
     return {"v": v, "nt": True, "n": len(case["wds"])}
 
 
+# ------------------------------------------------------------------ C05 (thorough tier): more than 2^24 cells, analytic mode vs the closed form by FFT
+def c05(case):
+    """periodic domain (halo=0) of more than 2^24 cells, every mode kept: the analytic mode is, per Fourier component, the
+    closed-form half-space solution - evaluated here with numpy's FFT (the DFT-matrix oracle of the small lattice would need
+    10^14 entries), one output level"""
+    from vf.oracles import halfspace
+
+    S = sl.solver()
+    ny, nx = case["shape"]
+    dx = dy = 4.0
+    dom = (nx * dx, ny * dy)
+    pv = (2.3, -1.1, 1.7, 0.6, 0.9)
+    z = np.array([0.05, 1.1, 3.9, 5.0])
+    prof = tuple(np.full(len(z), x) for x in pv)
+    rng = np.random.default_rng(2)
+    q = np.zeros((ny, nx))
+    jj, ii = rng.integers(0, ny, 200), rng.integers(0, nx, 200)
+    q[jj, ii] = rng.random(200) + 0.5  # not mirror-symmetric
+    _, c, f = S(q, z, prof, dom, 2, modes=(1 << 14, 1 << 14), halo=0.0, precision="double", analytic=True, srf_bg_conc=1.25)
+    kx = 2 * np.pi * np.fft.fftfreq(nx, d=dx)
+    ky = 2 * np.pi * np.fft.fftfreq(ny, d=dy)
+    KX, KY = np.meshgrid(kx, ky)
+    rp, rq, _ = halfspace.transfer(KX, KY, z[2] - z[0], pv)
+    Q = np.fft.fft2(q)
+    rp = np.where((KX == 0) & (KY == 0), 0.0, rp)
+    cw = np.fft.ifft2(Q * rp).real + 1.25 - q.mean() * (z[2] - z[0]) / pv[4]
+    fw = np.fft.ifft2(Q * np.where((KX == 0) & (KY == 0), 1.0, rq)).real
+    v = []
+    for nm, a, b in (("conc", c, cw), ("flux", f, fw)):
+        e = sl.relerr(np.asarray(a, dtype=float), b, max(np.abs(b).max(), 1e-300))
+        if not e <= 1e-9:
+            v.append({"sub": "large-grid", "sig": "large-grid/closed-form/%s" % nm, "msg": "%d x %d cells (%d > 2^24), analytic mode: %s differs from the closed form by %.2e of the field maximum" % (nx, ny, nx * ny, nm, e)})
+    return {"v": v, "nt": True, "n": 1}
+
+
 CASES = {
+    "C05": (c05, [{"shape": [4000, 4200]}]),
     "C04": (c04, [{"order": o, "analytic": a} for o in ("ascending", "descending") for a in (False, True)]),
     "C08": (c08, [{"wds": [30, 200]}, {"wds": [115, 290]}]),
     "C09": (c09, [{"n": n_, "closure": c_} for n_ in (21000, 33500) for c_ in ("MOST", "MOSTM", "CONSTANT", "OAAHOC")]),
